@@ -26,6 +26,10 @@
  * get(d, key K) — of the receiver itself (set(t, k, get(t, k)), rem(t, key_from_iteration), push(l, get(l, 0)), set(a, i, get(a, j)))
  * or of another container; the stored object itself is passed.  bad-op: a reference to nothing, a container of Box on either
  * side, an Array pushed an element of itself (KF-C04-push-own-element, C04's finding: read after realloc / memmove).
+ * References also stand as OPERANDS of concatv (nodes of the receiving List itself included: List_Concat reads operand i when its
+ * push runs; records of the receiving Array: bad-op, same C04 finding) and of newv / newm (objects stored in other containers);
+ * they do not mix with wrong-typed operands; the same stored object twice among the operands of concatv is bad-op (the operands
+ * travel in a Tuple: KF-C04-tuple-dup-iter).
  * Keys: Probe_Hash maps the payloads 1000..1175 to the boundary values of a 64-bit hash (BH[] below), all others to (pay % 16) * 37.
  * After the last line every remaining container is deleted (lowest name first), then `O end live=N` is printed.
  *
@@ -595,14 +599,20 @@ static int run_op(var* H, char** tk, int nt) {
     int na = nt - 3; if (m && na % 2) return 0;
     ArgTok* as = malloc((na + 1) * sizeof(ArgTok));
     int ngood = -1;                                    /* arguments before the first wrong-typed one (maps: whole pairs) */
+    int nref = 0;
     for (int j = 0; j < na; j++) {
-      if (!parse_arg(tk[3 + j], &as[j]) || as[j].isref) { free(as); return 0; }
+      if (!parse_arg(tk[3 + j], &as[j])) { free(as); return 0; }
+      if (as[j].isref) nref++;
       if (as[j].wrong && ngood < 0) ngood = m ? (j / 2) * 2 : j;
     }
+    /* operands that are stored objects of OTHER containers (the receiver does not exist yet): new(List, Probe, get(l, 0), get(t, k)).
+       They do not mix with wrong-typed operands; every reference must designate an element. */
+    if (nref && ngood >= 0) { free(as); return 0; }
+    for (int j = 0; j < na; j++) if (as[j].isref && !bind_ref(H, &as[j])) { free(as); return 0; }
     ArgBuf* abs = malloc((na + 1) * sizeof(ArgBuf));
     var* items = malloc((na + 4) * sizeof(var));
     int q = 0; items[q++] = ty(kt); if (m) items[q++] = ty(vt);
-    for (int j = 0; j < na; j++) items[q++] = as[j].wrong ? wrong_obj(as[j].wrong) : mk_arg_t(&abs[j], as[j].pay, m ? ((j % 2) ? vt : kt) : kt);
+    for (int j = 0; j < na; j++) items[q++] = as[j].wrong ? wrong_obj(as[j].wrong) : arg_obj(&as[j], &abs[j], m ? ((j % 2) ? vt : kt) : kt, m);
     items[q] = Terminal;
     var args = $(Tuple, items);
     var ctype = K == 'A' ? Array : K == 'L' ? List : K == 'T' ? Table : Tree;
@@ -645,13 +655,24 @@ static int run_op(var* H, char** tk, int nt) {
     int na = nt - 2;
     ArgTok* as = malloc((na + 1) * sizeof(ArgTok));
     int ngood = -1;
+    int nref = 0, nown = 0;
     for (int j = 0; j < na; j++) {
-      if (!parse_arg(tk[2 + j], &as[j]) || as[j].isref) { free(as); return 0; }
+      if (!parse_arg(tk[2 + j], &as[j])) { free(as); return 0; }
+      if (as[j].isref) { nref++; if (as[j].rc == (int)c) nown++; }
       if (as[j].wrong && ngood < 0) ngood = j;
     }
+    /* operands that are stored objects: concat(l, tuple(get(l, 0), get(t, k), ...)).  List_Concat pushes item by item — an operand
+       that is a node of the receiving list is read when ITS push runs.  An Array is not concatenated records of itself
+       (Array_Concat reads them after the realloc: KF-C04-push-own-element, bad-op here and in the model). */
+    if (nref && (ngood >= 0 || (nown && sh[c].kind == K_ARR))) { free(as); return 0; }
+    for (int j = 0; j < na; j++) if (as[j].isref && !bind_ref(H, &as[j])) { free(as); return 0; }
+    /* the operands travel in a Tuple: one stored object twice and foreach over the Tuple never ends (Tuple_Iter_Next searches by
+       pointer identity: KF-C04-tuple-dup-iter / KF-C11-tuple-dup) — bad-op here and in the model (`dupOperands`) */
+    for (int j = 0; j < na; j++) for (int q = j + 1; q < na; q++)
+      if (as[j].isref && as[q].isref && as[j].ptr == as[q].ptr) { free(as); return 0; }
     ArgBuf* abs = malloc((na + 1) * sizeof(ArgBuf));
     var* items = malloc((na + 2) * sizeof(var));
-    for (int j = 0; j < na; j++) items[j] = as[j].wrong ? wrong_obj(as[j].wrong) : mk_arg_t(&abs[j], as[j].pay, sh[c].kt);
+    for (int j = 0; j < na; j++) items[j] = as[j].wrong ? wrong_obj(as[j].wrong) : arg_obj(&as[j], &abs[j], sh[c].kt, 0);
     items[na] = Terminal;
     var src = $(Tuple, items);
     size_t oldn = sh[c].a.n;
